@@ -266,7 +266,6 @@ impl TerminalRenderer {
     pub fn frame<T: Terminal + ?Sized>(&mut self, term: &mut T) -> Result<(), Error> {
         // clear hoisted locals
         self.images.clear();
-        self.marks.fill(CellMark::Empty);
 
         // First pass
         //
@@ -438,6 +437,9 @@ impl TerminalRenderer {
         self.frame_count += 1;
         std::mem::swap(&mut self.front, &mut self.back);
         self.front.clear();
+        // marks are consumed by this frame, `new(clear=true)` and `clear` set them
+        // to `Damaged` for the next one
+        self.marks.fill(CellMark::Empty);
 
         Ok(())
     }
